@@ -26,6 +26,9 @@ def host_names(n, variant):
         if variant % 5 == 4:
             port = ":2701%d" % i
         names.append((h, h + port))
+    if variant % 3 == 1:
+        # the members are not listed in alphabetical order (shards listed 02,01,00; node-c,node-a,node-b)
+        names = names[::-1] if n != 3 else [names[2], names[0], names[1]]
     return names
 
 
